@@ -102,8 +102,7 @@ func VerifQuo() {
 	c := verifCtx()
 	var x, y, d Decimal
 	verifFinite("x", &x)
-	verifFinite("y", &y)
-	verifAssume(y.Coeff.Sign() != 0)
+	verifDivisor("y", &y)
 	verifHavoc("d0", &d)
 	verifFreezeDecimal(&x, "operand")
 	verifFreezeDecimal(&y, "operand")
